@@ -1388,11 +1388,39 @@ class ListNode(SyntaxNodeBase):
             ):
                 node.padding = PaddingNode(" ")
             if isinstance(last_node, ShortcutNode) and isinstance(node, ShortcutNode):
-                ret += node.format(last_node)
+                text = node.format(last_node)
             else:
-                ret += node.format()
+                text = node.format()
+            if self._is_numeric_entry(last_node) and self._is_numeric_entry(node):
+                ret = self._join_entries(ret, text)
+            else:
+                ret += text
             last_node = node
         return ret
+
+    @staticmethod
+    def _is_numeric_entry(node):
+        """
+        Whether the node is a number, a jump, or a shortcut: an entry that MCNP reads as a word of its own.
+        """
+        if isinstance(node, ShortcutNode):
+            return True
+        return isinstance(node, ValueNode) and node.type in {int, float}
+
+    @staticmethod
+    def _join_entries(front, text):
+        """
+        Appends the text of the next entry, and guarantees that two entries are never fused into one word.
+
+        :param front: the text so far.
+        :type front: str
+        :param text: the text of the next entry (with its own padding).
+        :type text: str
+        :rtype: str
+        """
+        if front and text and not front[-1].isspace() and not text[0].isspace():
+            return f"{front} {text}"
+        return front + text
 
     def __iter__(self):
         for node in self.nodes:
